@@ -35,7 +35,7 @@
 #include <archive.h>
 #include <archive_entry.h>
 
-#define MAXN 4096
+#define MAXN 16384
 struct seg { int64_t off, len; };
 struct node {
 	char *path;           /* relative, "" = root */
@@ -427,7 +427,11 @@ static int pack(const char *fmt, const char *apath)
 {
 	int worst = ARCHIVE_OK;
 	struct archive *aw = archive_write_new();
-	if (strcmp(fmt, "xar-seek") == 0) fmt = "xar";
+	char fbuf[64];
+	if (strlen(fmt) > 4 && strlen(fmt) < sizeof fbuf && strcmp(fmt + strlen(fmt) - 4, "-seq") == 0) {
+		snprintf(fbuf, sizeof fbuf, "%.*s", (int)strlen(fmt) - 4, fmt);
+		fmt = fbuf;
+	}
 	if (archive_write_set_format_by_name(aw, fmt) != ARCHIVE_OK) { archive_write_free(aw); return ARCHIVE_FATAL; }
 	if (archive_write_open_filename(aw, apath) != ARCHIVE_OK) { archive_write_free(aw); return ARCHIVE_FATAL; }
 	struct archive *disk = archive_read_disk_new();
@@ -554,10 +558,8 @@ static void do_rt(const char *fmt, const char *flagstr, int uid)
 	int cwd = open(".", O_RDONLY);
 	if (chdir(src) != 0) { printf("R nochdir\n"); close(cwd); return; }
 	int w = pack(fmt, apath);
-	/* xar archives are read back sequentially: read from a seekable file the xar reader fails with
-	 * "Decompressed size error" for some heap offsets (present in the unchanged tree; see
-	 * corpus/C12/untriaged-xar-seekable.txt).  "rt xar-seek" keeps the seekable source. */
-	unpack_sequential = strcmp(fmt, "xar") == 0;
+	/* "rt <fmt>-seq" reads the archive back through a sequential source (no skip, no seek) */
+	unpack_sequential = strlen(fmt) > 4 && strcmp(fmt + strlen(fmt) - 4, "-seq") == 0;
 	if (fchdir(cwd) != 0) {}
 	mkdir(dst, 0755);
 	if (uid) { if (chown(dst, (uid_t)uid, (gid_t)uid) != 0) {} }
@@ -748,7 +750,7 @@ static void do_xcmp(const char *fmt, int uid)
 	int cwd = open(".", O_RDONLY);
 	if (chdir(src) != 0) { printf("X nochdir\n"); close(cwd); return; }
 	pack(fmt, apath);
-	unpack_sequential = strcmp(fmt, "xar") == 0;
+	unpack_sequential = 0;
 	if (fchdir(cwd) != 0) {}
 	mkdir(dst, 0755);
 	if (uid) { if (chown(dst, (uid_t)uid, (gid_t)uid) != 0) {} }
